@@ -117,6 +117,17 @@ class PathInterp:
             def ifexp(self, n):
                 d = interp._decide(n.test, self)
                 return self.ev(n.body) if d else self.ev(n.orelse)
+
+            def subscript(self, n):
+                r = super().subscript(n)
+                # an element stored earlier on this path (a[k] = v with a concrete k) is read back as its value
+                try:
+                    k = r.key()
+                except Exception:
+                    return r
+                if isinstance(n.ctx, ast.Load) and k in self.env and isinstance(n.value, ast.Name):
+                    return self.env[k]
+                return r
         return E()
 
     def _inline_call(self, f, n, ev):
